@@ -17,7 +17,7 @@ through `adddiff` / `upd inc` / `load fresh` and asks the same queries of the no
     tree                                  IterateIdentities dump
     load inc|fresh      upd inc           Load / UpdateFromIdentityStateDiff(last diff)
     clone inc                             inc := inc.Clone() (no effect in the model: a clone is indistinguishable)
-    q inc|fresh sizes|sorted|a <x>|pool <x>|sub <p> <nonce>|pse <p> <x,..>|com <god> <limit> <perm,..>
+    q inc|fresh sizes|sorted|onlineok|a <x>|pool <x>|sub <p> <nonce>|pse <p> <x,..>|com <god> <limit> <perm,..>
 -/
 namespace IdenaModel.Drv.C10
 open IdenaModel.Registry IdenaModel.Drv
@@ -79,6 +79,7 @@ def query (c : Cache) (args : List String) : String :=
   match args with
   | ["sizes"] => s!"net={c.networkSize} onl={c.onlineSize} vals={c.validatorsSize} fork={c.forkCommitteeSize}"
   | ["sorted"] => showList c.sorted
+  | ["onlineok"] => showList (sortAsc c.onlineNotValidatedNotPool)
   | ["a", x] =>
     match x.toNat? with
     | some a => s!"v{b2s (c.isValidated a)} o{b2s (c.isOnlineIdentity a)} d{b2s (c.isDiscriminated a)} " ++
